@@ -201,6 +201,10 @@ pub fn generate(seed: u64, n: usize, _thorough: bool, _corpus: Option<&str>) -> 
     // scripted linear histories: the call patterns whose ORDER matters, every run
     let mut rh = Rng::new(seed ^ 0x5c217_7ed_u64).fork();
     for k in 0..(if n >= 2000 { n / 12 } else { 36 }) { out.extend(history_cases_with(&mut rh, Some(k))); }
+    // read-backs at values a hair away from an integer, and every arm of the `vars!` macro
+    let mut rq = Rng::new(seed ^ 0x71d7_e7a1_u64).fork();
+    for k in 0..(if n >= 2000 { n / 20 } else { 30 }) { out.push(tiny_eval_probe(&mut rq, k)); }
+    for k in 0..(if n >= 2000 { n / 40 } else { 16 }) { out.push(vars_macro_case(&mut rq, k)); }
     // the TRUTH TABLES of every connective through the method / operator forms, twice (the receiver form - bare handle or
     // expression - is drawn per probe): 12 connective shapes x 8 value pairs x 3
     let mut rt = Rng::new(seed ^ 0x7ab1e_u64).fork();
@@ -1177,5 +1181,116 @@ fn gap_doors(r: &mut Rng, k_index: usize) -> Case {
     if !ref_outcome.is_empty() {
         if let Ok(tm) = RoocParser::new(text.clone()).parse_and_transform(vec![], &IndexMap::new()) { c.oracle = format!("ref {} {}", sx::model(&tm), ref_outcome); }
     }
+    c
+}
+
+// ======================================================================================================
+// `BuilderSolution::eval` / `numeric_value` at solution values a hair away from an integer (2.5e-7, 3 - 2.5e-7, …): `eval(x)`
+// must be exactly `numeric_value(x)`, and `eval(x * 1e9)` the scaled value (the language semantics, judged by the exact oracle).
+// The solution is handed in through a `Solver` that returns it, so the values are exactly the ones chosen.
+
+fn tiny_eval_probe(r: &mut Rng, k: usize) -> Case {
+    let eps = *r.pick(&[2.5e-7, 4e-7, 1e-7, 7.5e-7, 9e-7]);
+    let near = r.range(-3, 5) as f64;
+    let vals = [if k % 2 == 0 { eps } else { -eps }, near - eps, near + eps];
+    let mut b = ModelBuilder::new();
+    let hs: Vec<Var> = ["dose", "p", "q"].iter().map(|n| b.add_var(*n, VariableType::Real(-10.0, 10.0))).collect();
+    let b = b.satisfy().with(BuilderConstraint::new(hs[0] + hs[1] + hs[2], Comparison::LessOrEqual, Expr::from(100.0), "c".into()));
+    let asg: Vec<Assignment<MILPValue>> = ["dose", "p", "q"].iter().zip(&vals).map(|(n, v)| Assignment { name: n.to_string(), value: MILPValue::Real(*v) }).collect();
+    let canned = LpSolution::new(asg, 0.0, IndexMap::new());
+    let which = k % 3;
+    let scale = 1e9;
+    // expressions: the bare handle, the handle scaled, the distance to the nearby integer scaled
+    let (e, be): (Exp, Expr) = match (k / 3) % 3 {
+        0 => (Exp::Variable(which.to_string()), Expr::from(hs[which])),
+        1 => (Exp::BinOp(BinOp::Mul, Box::new(Exp::Variable(which.to_string())), Box::new(Exp::Number(scale))), hs[which] * scale),
+        _ => { let c = if which == 0 { 0.0 } else { near };
+               (Exp::BinOp(BinOp::Mul, Box::new(Exp::BinOp(BinOp::Sub, Box::new(Exp::Variable(which.to_string())), Box::new(Exp::Number(c)))), Box::new(Exp::Number(scale))), (hs[which] - c) * scale) }
+    };
+    let mut c = Case::default();
+    c.tags = vec!["tiny-eval-probe".into()];
+    c.nontrivial = true;
+    c.show = format!("solution.eval({}) with dose={:e} p={:e} q={:e}", e, vals[0], vals[1], vals[2]);
+    match std::panic::catch_unwind(std::panic::AssertUnwindSafe(|| b.solve_with(Canned(canned)))) {
+        Ok(Ok(sol)) => {
+            let got = sol.eval(&be);
+            c.req = format!("eval-expr {} (vals {})", sx::exp(&e), sx::nums(&vals));
+            c.imp = format!("(ok {})", sx::num(got));
+            c.oracle = format!("eval-check {} (vals {}) {}", sx::exp(&e), sx::nums(&vals), sx::num(got));
+            for (i, h) in hs.iter().enumerate() {
+                let a = sol.eval(&Expr::from(*h)); let n2 = sol.numeric_value(*h);
+                if Some(a.to_bits()) != n2.map(|x| x.to_bits()) { c.impl_violation = Some(format!("eval(handle {}) = {:e} but numeric_value = {:?}", i, a, n2)); }
+            }
+        }
+        _ => { c.imp = "(no-solution)".into(); c.impl_violation = Some("solve_with on a linear satisfy model with a canned solution failed".into()); }
+    }
+    c
+}
+
+// ======================================================================================================
+// every arm of the `vars!` macro - scalar and array forms of bool / real(min,max) / real / nonneg(min,max) / nonneg / int(min,max),
+// bounded ranges with a NEGATIVE minimum included - against the same declarations made with `add_var` / `add_vars`, and against
+// the Lean state machine.
+
+fn vars_macro_case(r: &mut Rng, k: usize) -> Case {
+    let lo = -(r.range(1, 6) as f64) - 0.5; let hi = r.range(1, 6) as f64;
+    let nlo = r.range(0, 2) as f64; let nhi = nlo + r.range(1, 5) as f64;
+    let ilo = r.range(-4, 0) as i32; let ihi = ilo + r.range(0, 6) as i32;
+    let cnt = 1 + r.below(3);
+    let mut m = ModelBuilder::new();
+    if k % 2 == 0 {
+        rooc::vars! { m =>
+            a: bool;
+            b: real(lo, hi);
+            c: real;
+            d: nonneg(nlo, nhi);
+            e: nonneg;
+            f: int(ilo, ihi);
+            ga[cnt]: bool;
+            gb[cnt]: real(lo, hi);
+            gc[cnt]: real;
+            gd[cnt]: nonneg(nlo, nhi);
+            ge[cnt]: nonneg;
+            gf[cnt]: int(ilo, ihi);
+        };
+        let _ = (a, b, c, d, e, f, &ga, &gb, &gc, &gd, &ge, &gf);
+    } else {
+        rooc::vars! { m =>
+            gb[cnt]: real(lo, hi);
+            a: bool;
+            gf[cnt]: int(ilo, ihi);
+            b: real(lo, hi);
+            gd[cnt]: nonneg(nlo, nhi);
+            gc[cnt]: real;
+            f: int(ilo, ihi);
+            ge[cnt]: nonneg;
+            ga[cnt]: bool;
+            e: nonneg;
+            d: nonneg(nlo, nhi);
+            c: real;
+        };
+        let _ = (a, b, c, d, e, f, &ga, &gb, &gc, &gd, &ge, &gf);
+    }
+    // the same declarations through the plain API, in the same order
+    let ty = |n: &str| -> VariableType { match n.trim_start_matches('g') {
+        "a" => VariableType::Boolean, "b" => VariableType::Real(lo, hi), "c" => VariableType::Real(f64::NEG_INFINITY, f64::INFINITY),
+        "d" => VariableType::NonNegativeReal(nlo, nhi), "e" => VariableType::NonNegativeReal(0.0, f64::INFINITY), _ => VariableType::IntegerRange(ilo, ihi) } };
+    let order: Vec<&str> = if k % 2 == 0 { vec!["a", "b", "c", "d", "e", "f", "ga", "gb", "gc", "gd", "ge", "gf"] } else { vec!["gb", "a", "gf", "b", "gd", "gc", "f", "ge", "ga", "e", "d", "c"] };
+    let mut plain = ModelBuilder::new();
+    let mut ops = vec![];
+    for n in &order {
+        if n.len() == 2 { plain.add_vars(n, cnt, ty(n)); ops.push(format!("(add-vars {} {} {})", sx::q(n), cnt, sx::var_type(&ty(n)))); }
+        else { plain.add_var(*n, ty(n)); ops.push(format!("(add-var {} {})", sx::q(n), sx::var_type(&ty(n)))); }
+    }
+    let mm = m.into_model(); let pm = plain.into_model();
+    let mut c = Case::default();
+    c.tags = vec!["vars-macro".into()];
+    c.nontrivial = true;
+    c.show = format!("vars! {{ … }} with real({}, {}) nonneg({}, {}) int({}, {}) count {} order {}", lo, hi, nlo, nhi, ilo, ihi, cnt, k % 2);
+    // the Lean state machine replays the plain calls; the macro's model is the implementation's answer
+    c.req = format!("history (ops {})", ops.join(" "));
+    let outs: Vec<String> = { let mut next = 0usize; order.iter().map(|n| if n.len() == 2 { let s = format!("(handles {})", (next..next + cnt).map(|i| i.to_string()).collect::<Vec<_>>().join(" ")); next += cnt; s } else { next += 1; format!("(handles {})", next - 1) }).collect() };
+    c.imp = format!("(ok (outcomes {}) {})", outs.join(" "), sx_rmodel(&mm));
+    if sx::model(&mm) != sx::model(&pm) { c.impl_violation = Some(format!("the `vars!` macro declares something else than add_var / add_vars: macro {} vs plain {}", sx::domain(mm.domain()), sx::domain(pm.domain()))); }
     c
 }
